@@ -52,6 +52,7 @@ def scalarEq : Ty → Ty → Bool
   | .enum a, .enum b => a == b
   | .ref a, .ref b => scalarEq a b
   | .tuple as, .tuple bs => scalarEqs as bs
+  | .array l a, .array l' b => l == l' && decide (1 ≤ l) && decide (l ≤ 100000000) && scalarEq a b
   | _, _ => false
 def scalarEqs : List Ty → List Ty → Bool
   | [], [] => true
@@ -60,12 +61,14 @@ def scalarEqs : List Ty → List Ty → Bool
 end
 
 mutual
-/-- scalar, a struct / enum type (by name), or a reference to / a tuple of such -/
+/-- scalar, a struct / enum type (by name), or a reference to / a tuple of / a non-empty array (of a length a Go
+    compiler accepts) of such -/
 def flatTy : Ty → Bool
   | .struct _ => true
   | .enum _ => true
   | .ref e => flatTy e
   | .tuple ts => flatTys ts
+  | .array len e => decide (1 ≤ len) && decide (len ≤ 100000000) && flatTy e
   | t => scalarTy t
 def flatTys : List Ty → Bool
   | [] => true
@@ -80,6 +83,7 @@ def valTyS (S E : List String) : Ty → Bool
   | .enum n => E.contains n
   | .ref e => valTyS S E e
   | .tuple ts => valTysS S E ts
+  | .array len e => decide (1 ≤ len) && decide (len ≤ 100000000) && valTyS S E e
   | t => scalarTy t
 def valTysS (S E : List String) : List Ty → Bool
   | [] => true
@@ -337,6 +341,30 @@ def refCallOK (env : Env) (file : AFile) (Γ : Ctx) (f : Imm) (args : List Imm) 
      else false)
   | _ => false
 
+/-- the names of the array builtins (`array_get(a, i)`, `array_set(a, i, v)`) -/
+def arrNames : List String := ["array_get", "array_set"]
+
+/-- an array type whose helpers `go_file` emits: a value type that `collect_runtime_types` finds in the file -/
+def arrTyOK (env : Env) (file : AFile) (t : Ty) : Bool :=
+  valTy env t && (collectRuntimeTypes file).arrays.any (Goml.Mono.tyBeq t)
+
+/-- a call of an array builtin: `array_get(a, i) : e`, `array_set(a, i, v) : [e; n]`, the index of any integer type -/
+def arrCallOK (env : Env) (file : AFile) (Γ : Ctx) (f : Imm) (args : List Imm) (ty : Ty) : Bool :=
+  match f with
+  | .var name _ =>
+    (lookupTy Γ name).isNone && rn name == name &&
+    (match args with
+     | a :: i :: _ =>
+       (match a.ty with
+        | .array len e =>
+          intTy i.ty && arrTyOK env file (.array len e) &&
+          (if name == "array_get" then argsOK env Γ args [.array len e, i.ty] && scalarEq ty e
+           else if name == "array_set" then argsOK env Γ args [.array len e, i.ty, e] && scalarEq ty (.array len e)
+           else false)
+        | _ => false)
+     | _ => false)
+  | _ => false
+
 /-- how the heads of the arms of a `match` are read -/
 inductive ArmKind where
   /-- type switch on the enum variable `x` of type `sty` -/
@@ -361,7 +389,7 @@ def fragC (env : Env) (file : AFile) (G : List String) (Γ : Ctx) (K : KCtx) : C
   | .imm i => immOK env Γ i
   | .un op e ty => immOK env Γ e && unOK op e.ty ty
   | .bin op l r ty => immOK env Γ l && immOK env Γ r && binOK op l.ty r.ty ty
-  | .call f args ty => callOK env file G Γ f args ty || refCallOK env file Γ f args ty
+  | .call f args ty => callOK env file G Γ f args ty || refCallOK env file Γ f args ty || arrCallOK env file Γ f args ty
   | .constr (.struct sn) args ty =>
     scalarEq ty (.struct sn) && (goodStructs env).contains sn &&
     (match env.getStruct sn with
@@ -389,6 +417,10 @@ def fragC (env : Env) (file : AFile) (G : List String) (Γ : Ctx) (K : KCtx) : C
   | .tuple items ty =>
     (match ty with
      | .tuple ts => argsOK env Γ items ts && tupleTyOK env file (.tuple ts)
+     | _ => false)
+  | .array items ty =>
+    (match ty with
+     | .array len e => argsOK env Γ items (List.replicate len e) && valTy env (.array len e)
      | _ => false)
   | .proj e idx ty =>
     immOK env Γ e &&
@@ -450,7 +482,8 @@ def goCallee (f : Imm) (args : List Imm) (ty : Ty) : List String :=
   match f with
   | .var x _ =>
     if rn x == "ref" then [helperFnName "ref" ty]
-    else if rn x == "ref_get" || rn x == "ref_set" then [helperFnName (rn x) ((args.head?.map Imm.ty).getD (.tvar 0))]
+    else if rn x == "ref_get" || rn x == "ref_set" || rn x == "array_get" || rn x == "array_set" then
+      [helperFnName (rn x) ((args.head?.map Imm.ty).getD (.tvar 0))]
     else [vn x]
   | _ => []
 
@@ -529,7 +562,7 @@ def reservedGoNames : List String := ["fmt.Sprintf", "fmt.Print", "fmt.Println"]
 def fileOK (env : Env) (file : AFile) (n : Nat) : Bool :=
   let F := (goFilePreSt env file n).1
   (F.funcs.map (·.name)).Nodup && (file.map (·.name)).Nodup &&
-  file.all (fun f => !builtinNames.contains f.name && !refNames.contains f.name) &&
+  file.all (fun f => !builtinNames.contains f.name && !refNames.contains f.name && !arrNames.contains f.name) &&
   reservedGoNames.all (fun r => (F.findFunc r).isNone) &&
   structsClosed env && (goodStructs env).all (structTableOK env F) && (goodEnums env).all (enumTableOK env F) &&
   (collectRuntimeTypes file).refs.all (refTableOK env F) && (collectRuntimeTypes file).tuples.all (tupleTableOK env F)
@@ -602,6 +635,7 @@ def tyReason (env : Env) (t : Ty) : String :=
      | some t => "tuple-with-" ++ tyClass t ++ "-component"
      | none => "tuple")
   | .ref e => if valTy env e then "ref" else "ref-to-" ++ tyClass e
+  | .array len e => if !valTy env e then "array-of-" ++ tyClass e else if len == 0 then "empty-array" else "array"
   | t => tyClass t
 
 mutual
@@ -612,7 +646,7 @@ def reasonC (env : Env) (file : AFile) (G : List String) (Γ : Ctx) (K : KCtx) :
     ((immReason env Γ l).orElse fun _ => immReason env Γ r).orElse fun _ =>
       if binOK op l.ty r.ty ty then none else some "operator:binary-type"
   | .call f args ty =>
-    if callOK env file G Γ f args ty || refCallOK env file Γ f args ty then none
+    if callOK env file G Γ f args ty || refCallOK env file Γ f args ty || arrCallOK env file Γ f args ty then none
     else match f with
       | .var name _ =>
         if (lookupTy Γ name).isSome then some "call:through-a-local(closure/function value)"
@@ -640,7 +674,9 @@ def reasonC (env : Env) (file : AFile) (G : List String) (Γ : Ctx) (K : KCtx) :
   | .tuple items ty =>
     if fragC env file G Γ K (.tuple items ty) then none
     else (firstSome items (immReason env Γ)).orElse fun _ => some ("node:tuple(" ++ tyReason env ty ++ ")")
-  | .array _ _ => some "node:array"
+  | .array items ty =>
+    if fragC env file G Γ K (.array items ty) then none
+    else (firstSome items (immReason env Γ)).orElse fun _ => some ("node:array(" ++ tyReason env ty ++ ")")
   | .matchE s arms d ty =>
     if fragC env file G Γ K (.matchE s arms d ty) then none
     else (immReason env Γ s).orElse fun _ =>
